@@ -117,16 +117,16 @@ def compare_outcomes(m, impl_res):
         cls = impl_res[1]
         if cls == "Hang":
             return {"agree": True, "kind": "impl-hang", "detail": None}
-        if cls == "Exception" and m[0] == "ok" and "_produce_output" in (impl_res[2] if len(impl_res) > 2 else ""):
-            # rdflib refuses to print an IRI holding one of <>" {}|\^` (term.py: _is_valid_uri): the graph was built,
-            # the Turtle writer raised.  Accepted only when the model's graph does hold such an IRI.
-            bad = [r for r in m[2] for k, v in ((r[0], r[1]), ("I", r[2]), (r[3], r[4]), ("I", r[5] or "x"))
-                   if k == "I" and any(ch in v for ch in '<>" {}|\\^`')]
-            if bad:
-                return {"agree": True, "kind": "rdflib-refuses-invalid-iri", "detail": None}
+        # rdflib refuses to print an IRI holding one of <>" {}|\^` (term.py: _is_valid_uri): the graph was built, the
+        # Turtle writer raised in _produce_output.  The model predicts it (Model.ShaclDoc.produce_output: the error
+        # "Exception" when a subject / object IRI of its graph holds such a character), so it is compared like any
+        # other exception below.
         if m[0] in ("err", "runerr") and m[1] == cls:
             where = impl_res[2] if len(impl_res) > 2 else ""
-            if m[0] == "err" and "shacl_serializer" not in where and where:
+            # the innermost sheXer frame of a serialiser fault is the serialiser itself, or -- TypeError of a
+            # disjunction (finding C04-F3) -- the st_type property the serialiser reads
+            in_ser = "shacl_serializer" in where or (cls == "TypeError" and "fixed_prop_choice_statement" in where)
+            if m[0] == "err" and not in_ser and where:
                 return {"agree": False, "kind": "error-site",
                         "detail": "model: the SHACL serialiser raises %s; real: raised in %s" % (cls, where)}
             return {"agree": True, "kind": "%s:%s" % (m[0], cls), "detail": None}
@@ -327,6 +327,10 @@ def grid_specs(rnd, n):
         for k in range(rnd.randint(1, 3)):
             name = rnd.choice(GRID_NAMES if faulty and rnd.random() < 0.3 else GRID_NAMES[:3])
             cls = E + rnd.choice(["A", "B", "C"])
+            if faulty and rnd.random() < 0.3:
+                # class keys as a shape map leaves them (label in corners: sh:targetClass keeps them / loses them, by the
+                # text of _add_target_class) and keys rdflib's writer refuses whatever the text
+                cls = rnd.choice(["<" + cls + ">", "<" + cls + ">", "<<" + cls + ">>", cls + " x", "<" + cls])
             sts = []
             for j in range(rnd.randint(0, 4)):
                 p = rnd.choice(GRID_PROPS if faulty and rnd.random() < 0.4 else GRID_PROPS[:3])
